@@ -92,9 +92,11 @@ func c18(r *core.Run) {
 	r.Rule("C18/R3", "delete is recipient-only: the inbox (leading) component of the deleted key ⊵ signer only")
 	r.Rule("C18/R4", "the only handler that writes Notification-typed records is notifications.MsgCreateNotification")
 	r.Rule("C18/R6", "success implies the effect: a successful create has written the notification, a successful delete has deleted it")
+	r.Rule("C18/R8", "what is stored is what was sent: the notifications record setters marshal their parameter unmodified and write on every path, and the module's key builders write each parameter into the key exactly once")
 	r.Rule("C18/R7", "every listed sender is blocked: the loop over msg.ToBlock that writes the block entries is left only when the list is exhausted or by a failing return")
 	r.Rule("C18/R5", "the inbox listing iterates the prefix '<address>/' and notification keys start with '<to>/'")
 	prefixTyping(r, "C18/R1")
+	r.Floor("C18/R8", settersFaithful(r, "C18/R8", "notifications")+keyBuildersFaithful(r, "C18/R8", "notifications"), 3, "notifications setters and key builders")
 	hs, err := p.Handlers()
 	if err != nil {
 		r.Undecided("C18/R2", "handlers", "", err.Error())
@@ -248,13 +250,48 @@ func c18(r *core.Run) {
 			if !strings.Contains(core.CalleeFullName(o.Instr), "PrefixIterator") {
 				continue // pagination helper over the whole store
 			}
-			t := core.NewTermBuilder(p).Term(args[1])
-			if t == "alloc" || t == `""` {
-				continue // []byte{}: whole-store iteration
+			// the prefix, or — when the scan sits in a shared helper that is handed the prefix — the prefixes handed in
+			var prefixes []string
+			if prm, isPrm := args[1].(*ssa.Parameter); isPrm {
+				pi := -1
+				for i, q := range fn.Params {
+					if q == prm {
+						pi = i
+					}
+				}
+				for _, caller := range p.CG().In[fn] {
+					allInstrs(caller, func(in ssa.Instruction) {
+						c, isCall := in.(ssa.CallInstruction)
+						if !isCall {
+							return
+						}
+						for _, cal := range p.Callees(c) {
+							if cal != fn {
+								continue
+							}
+							cc := c.Common()
+							var actuals []ssa.Value
+							if cc.IsInvoke() {
+								actuals = append(actuals, cc.Value)
+							}
+							actuals = append(actuals, cc.Args...)
+							if pi >= 0 && pi < len(actuals) {
+								prefixes = append(prefixes, core.NewTermBuilder(p).Term(actuals[pi]))
+							}
+						}
+					})
+				}
+			} else {
+				prefixes = []string{core.NewTermBuilder(p).Term(args[1])}
 			}
-			nIt++
-			okPrefix := strings.HasPrefix(t, "concat(") && strings.HasSuffix(t, `,"/")`) && strings.Count(t, `"/"`) == 1
-			r.Check(okPrefix && setKeyLead == "%s/", "C18/R5", core.FnName(fn)+":inbox-prefix", p.InstrPos(o.Instr), "inbox iteration prefix '<address>/' = leading key component", fmt.Sprintf("inbox listing prefix %s is not '<address>/' (the notification key's leading component is %q): entries of other inboxes are listed", t, setKeyLead))
+			for _, t := range prefixes {
+				if t == "alloc" || t == `""` || t == "nil" {
+					continue // []byte{}: whole-store iteration
+				}
+				nIt++
+				okPrefix := strings.HasPrefix(t, "concat(") && strings.HasSuffix(t, `,"/")`) && strings.Count(t, `"/"`) == 1
+				r.Check(okPrefix && setKeyLead == "%s/", "C18/R5", core.FnName(fn)+":inbox-prefix", p.InstrPos(o.Instr), "inbox iteration prefix '<address>/' = leading key component", fmt.Sprintf("inbox listing prefix %s is not '<address>/' (the notification key's leading component is %q): entries of other inboxes are listed", t, setKeyLead))
+			}
 		}
 	}
 	r.Floor("C18/R5", nIt, 1, "inbox listings")
